@@ -247,7 +247,8 @@ func httpCase(m *monitor, r *vc.Rand) (vc.Val, vc.Val, bool) {
 	case 1:
 		hdr += "Accept: " + r.Pick([]string{"text/event-stream", "application/json", "*/*", "x"}) + "\r\n"
 	case 2:
-		hdr += "Grpc-Timeout: " + r.Pick([]string{"1S", "-1S", "x", "99999999999S", "1"}) + "\r\n"
+		// (no zero timeouts such as "0n": 504 is the right answer to them, and a 5xx counts as a failure here)
+		hdr += "Grpc-Timeout: " + r.Pick([]string{"1S", "-1S", "x", "99999999999S", "1", "", " ", "S", "H", "99999999H", "1s", "\xff", "1S,2S", "123456789"}) + "\r\n"
 	}
 	decl := declLen(r, len(body))
 	raw := fmt.Sprintf("%s %s HTTP/1.1\r\nHost: x\r\n%sContent-Length: %s\r\n\r\n%s", method, url, hdr, decl, body)
@@ -341,7 +342,7 @@ func webCase(m *monitor, r *vc.Rand) (vc.Val, vc.Val, bool) {
 	}
 	hdr := ""
 	if r.Chance(30) {
-		hdr = r.Pick([]string{"Grpc-Timeout: 1S\r\n", "Grpc-Timeout: -5S\r\n", "X-Grpc-Web: 1\r\n", "Grpc-Encoding: gzip\r\n", "Te: trailers\r\n", "Grpc-Timeout: \xff\r\n"})
+		hdr = r.Pick([]string{"Grpc-Timeout: 1S\r\n", "Grpc-Timeout: -5S\r\n", "X-Grpc-Web: 1\r\n", "Grpc-Encoding: gzip\r\n", "Te: trailers\r\n", "Grpc-Timeout: \xff\r\n", "Grpc-Timeout:\r\n", "Grpc-Timeout: S\r\n", "Grpc-Timeout: 1S\r\nGrpc-Timeout:\r\n"})
 	}
 	decl := declLen(r, len(body))
 	if forcedBody != nil {
